@@ -270,7 +270,7 @@ def run(ctx):
             _retry_oom(ctx.tlc_check, "chain", "MCStateHistory.tla", "StateHistory_casm_thorough.cfg", timeout=3000)
         dbs = directed(ctx, fix)
         sim = behaviours(ctx, "StateHistory_sim.cfg", 8 if thorough else 1, 17 * (150 if thorough else 70), fix, 0)
-        fork = behaviours(ctx, "StateHistory_forksim.cfg", 4 if thorough else 1, 17 * (150 if thorough else 70), fix, 20)
+        fork = behaviours(ctx, "StateHistory_forksim.cfg", 2 if thorough else 1, 17 * (150 if thorough else 70), fix, 20)
         bs = dbs + sim + fork
         res = run_engine_keep(ctx, binary, "TestHistReplay", {"behaviours": bs}, timeout=3000)
         ctx.absorb(res, "statehist", "TestHistReplay")
